@@ -121,7 +121,7 @@ func (g *irGenCtx) genValidator(ty string) string {
 	case strings.HasPrefix(ty, "[]"):
 		pool = []string{"required", "minItems=1", "maxItems=5", "uniqueItems=true", "dive"}
 	case base == "string":
-		pool = []string{"required", "email", "uuid", "ip", "ipv4", "ipv6", "hostname", "date", "datetime", "min=2", "max=10", "len=3", "pattern=^a+$", "oneof=a b c", "enum=a|b"}
+		pool = []string{"required", "email", "uuid", "ip", "ipv4", "ipv6", "hostname", "date", "datetime", "min=2", "max=10", "len=3", "pattern=^a+$", "oneof=a b c", "enum=a|b", "pattern=^[a-z]+=[a-z]+$", "oneof=k=v x=y", "enum=a=1|b=2"}
 	case base == "bool":
 		pool = []string{"required"}
 	case base == "float32" || base == "float64":
@@ -180,7 +180,7 @@ func (g *irGenCtx) genSecurity(schemes []irScheme, allowGhost bool) [][]irSecCom
 			}
 			sc := []string{}
 			for k := r.Intn(3); k > 0; k-- {
-				sc = append(sc, rng.Pick(r, []string{"read", "write", "admin"}))
+				sc = append(sc, rng.Pick(r, []string{"read", "write", "admin", "orders:read&write", "it's"}))
 			}
 			l = append(l, irSecComp{Name: name, Scopes: sc})
 		}
@@ -323,6 +323,10 @@ func (g *irGenCtx) genRoute(ci, ri int, ctrlPath string, schemes []irScheme, per
 	rng.Shuffle(r, codes)
 	for k := r.Intn(3); k > 0; k-- {
 		rt.ErrorResponses = append(rt.ErrorResponses, irErrResp{Code: codes[k], Description: rng.Pick(r, []string{"", "failure"})})
+	}
+	if r.Chance(1, 12) {
+		// an error response under the SAME status code as the success response (an in-band soft failure)
+		rt.ErrorResponses = append(rt.ErrorResponses, irErrResp{Code: rt.SuccessCode, Description: "soft failure"})
 	}
 	rt.Security = g.genSecurity(schemes, perturb)
 	return rt
